@@ -58,7 +58,11 @@ def rules(rep, m):
             stored = False
             for l_, r_, k_, n_ in inv.stores(put):
                 l0 = strip(l_, casts=True)
-                if l0["kind"] == "UnaryOperator" and l0.get("opcode") == "*" and pcx.canon(kids(l0)[0]) == hl and r_ is not None and k_ == "=":
+                tgt_ = pcx.canon(kids(l0)[0]) if l0["kind"] == "UnaryOperator" and l0.get("opcode") == "*" else ""
+                # the caller's location, also when a dummy stands in for a NULL one: (hl != NULL) ? hl : &dummy
+                to_caller = tgt_ == hl or re.fullmatch(r"\(\(%s != NULL\) \? %s : &\w+\)|\(%s \? %s : &\w+\)|\(\(%s == NULL\) \? &\w+ : %s\)"
+                                                       % ((re.escape(hl),) * 6), tgt_) is not None
+                if to_caller and r_ is not None and k_ == "=":
                     src = pcx.resolve(r_)
                     if src is e_ or any(y is e_ for y in walk(src)):
                         extra = [cd for cd in inv.dominating_conditions(pcx, put, n_) if cd not in inv.dominating_conditions(pcx, put, e_)]
@@ -99,6 +103,41 @@ def rules(rep, m):
             vals_ = [v_ for v_ in vals_ if v_ not in ("NULL", "0")]
             if vals_ and all("find_index" in v_ or v_.startswith("&" + pos.params[0]["name"]) for v_ in vals_):
                 a2[1] = vals_[0]
+        if not walker:
+            # a cursor of any enclosing loop that starts in the heap array
+            w0 = strip(kids(c)[1], casts=True)
+            for lp_ in [a_ for a_ in inv.enclosing_chain(pos, c) if a_["kind"] in ("ForStmt", "WhileStmt", "DoStmt")]:
+                iv_, g_ = inv.induction_vars(xcx, pos, lp_)
+                if w0["kind"] == "DeclRefExpr" and w0["ref"]["name"] in iv_ and "heap" in (iv_[w0["ref"]["name"]][0] or ""):
+                    walker = True
+        if len(a2) == 2 and re.fullmatch(r"\w+", a2[1]):
+            # the target through locals: every value it can hold is NULL (with a return in front of the walk) or the entry
+            # located by the handle
+            def values_of(name_, depth_=0):
+                out_ = []
+                for l_, r_, k_, n_ in inv.stores(pos):
+                    if r_ is not None and render(strip(l_, casts=True)) == name_ and k_ == "=":
+                        out_.append(r_)
+                for d_ in walk(pos.body):
+                    if d_["kind"] == "VarDecl" and d_.get("name") == name_ and kids(d_):
+                        out_.append(kids(d_)[0])
+                res_ = []
+                for r_ in out_:
+                    r0 = strip(r_, casts=True)
+                    if r0["kind"] == "ConditionalOperator":
+                        arms_ = [kids(r0)[1], kids(r0)[2]]
+                    else:
+                        arms_ = [r0]
+                    for a_ in arms_:
+                        a0 = strip(a_, casts=True)
+                        if a0["kind"] == "DeclRefExpr" and a0["ref"].get("kind") == "VarDecl" and a0["ref"]["name"] != name_ and depth_ < 3:
+                            res_ += values_of(a0["ref"]["name"], depth_ + 1)
+                        else:
+                            res_.append(xcx.canon(a0))
+                return res_
+            vs_ = [v_ for v_ in values_of(a2[1]) if v_ not in ("NULL", "0")]
+            if vs_ and all("find_index" in v_ and pos.params[1]["name"] in v_ for v_ in vs_):
+                a2[1] = vs_[0]
         if callee.lstrip("*(").rstrip(")").endswith("heap_compare") and len(a2) == 2 and walker and \
                 (a2[1].replace("(", "").replace(")", "").startswith(("&" + pos.params[0]["name"]))
                  or "find_index" in a2[1]) and inv.in_loop(pos, c):
